@@ -58,12 +58,41 @@ func dispatchStage(meta *common.Meta, tier, base, bin, outDir string, rng interf
 	var lines, idx []string
 	dist := map[string]int{}
 	runs := 0
+	type djob struct {
+		exe            string
+		argv           []string
+		stdout, stderr string
+		code           int
+		err            error
+	}
+	var djobs []*djob
 	for _, exe := range []string{"go-critic", "gocritic"} {
 		for ai, argv := range argvs {
 			if tier == "quick" && exe == "gocritic" && ai%3 != 0 {
 				continue
 			}
-			stdout, stderr, code, err := common.RunSplit(60*time.Second, base, common.GoEnv(), filepath.Join(bin, exe), argv...)
+			djobs = append(djobs, &djob{exe: exe, argv: argv})
+		}
+	}
+	{
+		sem := make(chan struct{}, 8)
+		done := make(chan struct{})
+		for _, j := range djobs {
+			j := j
+			go func() {
+				sem <- struct{}{}
+				j.stdout, j.stderr, j.code, j.err = common.RunSplit(60*time.Second, base, common.GoEnv(), filepath.Join(bin, j.exe), j.argv...)
+				<-sem
+				done <- struct{}{}
+			}()
+		}
+		for range djobs {
+			<-done
+		}
+	}
+	for _, j := range djobs {
+		{
+			exe, argv, stdout, stderr, code, err := j.exe, j.argv, j.stdout, j.stderr, j.code, j.err
 			runs++
 			if err != nil {
 				meta.Fail("C19/cli/hang:subcommand", fmt.Sprintf("%s %q: %v", exe, argv, err), argv)
